@@ -106,8 +106,8 @@ PROPS = {'C18': {'title': 'Inflights window is a bounded FIFO under resizing',
                        'a reply to persisted messages stepped before on_persist_ready (become_leader assert): read as outside the Ready contract, see '
                        'DESIGN.md A.4'],
          'assumptions': ['mode S for raft.rs and raw_node.rs (fatal!/panic!/assert! abort; postconditions hold on normal return)',
-                         'assumed contracts (fingerprint-locked in spec/assumed.lock.json): ProgressTracker::{get_mut, record_vote}, '
-                         'Configuration::to_conf_state, Raft::has_unapplied_conf_changes (K-ext Kani), RaftCore::try_batching (K-ext Kani); ReadOnly is under '
+                         'assumed contracts (fingerprint-locked in spec/assumed.lock.json): ProgressTracker::get_mut, '
+                         'Raft::has_unapplied_conf_changes (K-ext Kani), RaftCore::try_batching (K-ext Kani); ReadOnly is under '
                          'contract over a byte-keyed view of its table: the five std HashMap operations with Vec<u8> / &[u8] keys are specified helpers '
                          '(verif_ri_*)',
                          'specified helpers for std / protobuf calls (R9) and the three cut texts (R10) listed in the evidence file'],
@@ -125,7 +125,7 @@ PROPS = {'C18': {'title': 'Inflights window is a bounded FIFO under resizing',
                      'MajorityConfig::vote_result equals the model (Won iff the yes-set is a majority, Lost iff yes+missing cannot reach one, empty => Won); '
                      'JointConfig::{committed_index (min of the halves), vote_result, is_singleton, contains}; ProgressTracker::{maximal_committed_index, '
                      'vote_result, has_quorum, tally_votes result, is_singleton, get}'],
-         'undecided': ['the yes/no counters returned by tally_votes (cut, R10); record_vote / quorum_recently_active (assumed)'],
+         'undecided': ['the yes/no counters returned by tally_votes (cut, R10); the std operation HashMap::entry().or_insert() inside record_vote (R9, assumed)'],
          'assumptions': ['R10: unsafe MaybeUninit stack array path == heap path',
                          'sort_by is a sorted permutation',
                          'HashMap::entry().or_insert: the first recorded vote sticks'],
@@ -150,8 +150,8 @@ PROPS = {'C18': {'title': 'Inflights window is a bounded FIFO under resizing',
                      'entries)',
                      'mon_c14 (log reads)'],
          'assumptions': ['mode S for raft.rs and raw_node.rs (fatal!/panic!/assert! abort; postconditions hold on normal return)',
-                         'assumed contracts (fingerprint-locked in spec/assumed.lock.json): ProgressTracker::{get_mut, record_vote}, '
-                         'Configuration::to_conf_state, Raft::has_unapplied_conf_changes (K-ext Kani), RaftCore::try_batching (K-ext Kani); ReadOnly is under '
+                         'assumed contracts (fingerprint-locked in spec/assumed.lock.json): ProgressTracker::get_mut, '
+                         'Raft::has_unapplied_conf_changes (K-ext Kani), RaftCore::try_batching (K-ext Kani); ReadOnly is under '
                          'contract over a byte-keyed view of its table: the five std HashMap operations with Vec<u8> / &[u8] keys are specified helpers '
                          '(verif_ri_*)',
                          'specified helpers for std / protobuf calls (R9) and the three cut texts (R10) listed in the evidence file']},
@@ -168,8 +168,8 @@ PROPS = {'C18': {'title': 'Inflights window is a bounded FIFO under resizing',
                      'keeps term and vote; hup does not campaign with an unapplied membership change up to the commit index'],
          'undecided': ['leader completeness itself (cluster-wide induction)'],
          'assumptions': ['mode S for raft.rs and raw_node.rs (fatal!/panic!/assert! abort; postconditions hold on normal return)',
-                         'assumed contracts (fingerprint-locked in spec/assumed.lock.json): ProgressTracker::{get_mut, record_vote}, '
-                         'Configuration::to_conf_state, Raft::has_unapplied_conf_changes (K-ext Kani), RaftCore::try_batching (K-ext Kani); ReadOnly is under '
+                         'assumed contracts (fingerprint-locked in spec/assumed.lock.json): ProgressTracker::get_mut, '
+                         'Raft::has_unapplied_conf_changes (K-ext Kani), RaftCore::try_batching (K-ext Kani); ReadOnly is under '
                          'contract over a byte-keyed view of its table: the five std HashMap operations with Vec<u8> / &[u8] keys are specified helpers '
                          '(verif_ri_*)',
                          'specified helpers for std / protobuf calls (R9) and the three cut texts (R10) listed in the evidence file'],
@@ -201,8 +201,8 @@ PROPS = {'C18': {'title': 'Inflights window is a bounded FIFO under resizing',
                      'term and keeps the stored vote'],
          'undecided': ['the crash-point statement over all schedules'],
          'assumptions': ['mode S for raft.rs and raw_node.rs (fatal!/panic!/assert! abort; postconditions hold on normal return)',
-                         'assumed contracts (fingerprint-locked in spec/assumed.lock.json): ProgressTracker::{get_mut, record_vote}, '
-                         'Configuration::to_conf_state, Raft::has_unapplied_conf_changes (K-ext Kani), RaftCore::try_batching (K-ext Kani); ReadOnly is under '
+                         'assumed contracts (fingerprint-locked in spec/assumed.lock.json): ProgressTracker::get_mut, '
+                         'Raft::has_unapplied_conf_changes (K-ext Kani), RaftCore::try_batching (K-ext Kani); ReadOnly is under '
                          'contract over a byte-keyed view of its table: the five std HashMap operations with Vec<u8> / &[u8] keys are specified helpers '
                          '(verif_ri_*)',
                          'specified helpers for std / protobuf calls (R9) and the three cut texts (R10) listed in the evidence file'],
@@ -225,8 +225,8 @@ PROPS = {'C18': {'title': 'Inflights window is a bounded FIFO under resizing',
                      'activity flags are reset'],
          'undecided': ['"a healthy leader is never deposed" as a history statement'],
          'assumptions': ['mode S for raft.rs and raw_node.rs (fatal!/panic!/assert! abort; postconditions hold on normal return)',
-                         'assumed contracts (fingerprint-locked in spec/assumed.lock.json): ProgressTracker::{get_mut, record_vote}, '
-                         'Configuration::to_conf_state, Raft::has_unapplied_conf_changes (K-ext Kani), RaftCore::try_batching (K-ext Kani); ReadOnly is under '
+                         'assumed contracts (fingerprint-locked in spec/assumed.lock.json): ProgressTracker::get_mut, '
+                         'Raft::has_unapplied_conf_changes (K-ext Kani), RaftCore::try_batching (K-ext Kani); ReadOnly is under '
                          'contract over a byte-keyed view of its table: the five std HashMap operations with Vec<u8> / &[u8] keys are specified helpers '
                          '(verif_ri_*)',
                          'specified helpers for std / protobuf calls (R9) and the three cut texts (R10) listed in the evidence file'],
@@ -246,8 +246,8 @@ PROPS = {'C18': {'title': 'Inflights window is a bounded FIFO under resizing',
                      'move the applied index exactly to the given index (0: unchanged) and change nothing else of the Ready bookkeeping'],
          'undecided': ['exactly-once over the lifetime'],
          'assumptions': ['mode S for raft.rs and raw_node.rs (fatal!/panic!/assert! abort; postconditions hold on normal return)',
-                         'assumed contracts (fingerprint-locked in spec/assumed.lock.json): ProgressTracker::{get_mut, record_vote}, '
-                         'Configuration::to_conf_state, Raft::has_unapplied_conf_changes (K-ext Kani), RaftCore::try_batching (K-ext Kani); ReadOnly is under '
+                         'assumed contracts (fingerprint-locked in spec/assumed.lock.json): ProgressTracker::get_mut, '
+                         'Raft::has_unapplied_conf_changes (K-ext Kani), RaftCore::try_batching (K-ext Kani); ReadOnly is under '
                          'contract over a byte-keyed view of its table: the five std HashMap operations with Vec<u8> / &[u8] keys are specified helpers '
                          '(verif_ri_*)',
                          'specified helpers for std / protobuf calls (R9) and the three cut texts (R10) listed in the evidence file',
@@ -265,8 +265,8 @@ PROPS = {'C18': {'title': 'Inflights window is a bounded FIFO under resizing',
                      'restore discards only when installing; the election clauses that keep one leader per term (C03.step_candidate.counts_only_own_kind)'],
          'undecided': ['log matching between nodes (cluster statement)'],
          'assumptions': ['mode S for raft.rs and raw_node.rs (fatal!/panic!/assert! abort; postconditions hold on normal return)',
-                         'assumed contracts (fingerprint-locked in spec/assumed.lock.json): ProgressTracker::{get_mut, record_vote}, '
-                         'Configuration::to_conf_state, Raft::has_unapplied_conf_changes (K-ext Kani), RaftCore::try_batching (K-ext Kani); ReadOnly is under '
+                         'assumed contracts (fingerprint-locked in spec/assumed.lock.json): ProgressTracker::get_mut, '
+                         'Raft::has_unapplied_conf_changes (K-ext Kani), RaftCore::try_batching (K-ext Kani); ReadOnly is under '
                          'contract over a byte-keyed view of its table: the five std HashMap operations with Vec<u8> / &[u8] keys are specified helpers '
                          '(verif_ri_*)',
                          'specified helpers for std / protobuf calls (R9) and the three cut texts (R10) listed in the evidence file',
@@ -290,8 +290,8 @@ PROPS = {'C18': {'title': 'Inflights window is a bounded FIFO under resizing',
                      'acknowledgements are persisted messages; followers never commit beyond min(leader commit, last new index)'],
          'undecided': ['durability on a quorum as a cluster statement'],
          'assumptions': ['mode S for raft.rs and raw_node.rs (fatal!/panic!/assert! abort; postconditions hold on normal return)',
-                         'assumed contracts (fingerprint-locked in spec/assumed.lock.json): ProgressTracker::{get_mut, record_vote}, '
-                         'Configuration::to_conf_state, Raft::has_unapplied_conf_changes (K-ext Kani), RaftCore::try_batching (K-ext Kani); ReadOnly is under '
+                         'assumed contracts (fingerprint-locked in spec/assumed.lock.json): ProgressTracker::get_mut, '
+                         'Raft::has_unapplied_conf_changes (K-ext Kani), RaftCore::try_batching (K-ext Kani); ReadOnly is under '
                          'contract over a byte-keyed view of its table: the five std HashMap operations with Vec<u8> / &[u8] keys are specified helpers '
                          '(verif_ri_*)',
                          'specified helpers for std / protobuf calls (R9) and the three cut texts (R10) listed in the evidence file',
@@ -316,8 +316,8 @@ PROPS = {'C18': {'title': 'Inflights window is a bounded FIFO under resizing',
          'cone': {'P': ['quorum', 'tracker'], 'S': ['raft_conf', 'pb']},
          'modes': ['P', 'S'],
          'claim': 'PROOF for Changer::{simple, enter_joint, leave_joint}, ProgressTracker::apply_conf, confchange::restore (partial correctness: IF it '
-                  'succeeds it reproduces the configuration the ConfState describes) and the quorum-overlap lemmas; Configuration::to_conf_state is not under '
-                  'contract',
+                  'succeeds it reproduces the configuration the ConfState describes) and the quorum-overlap lemmas; Configuration::to_conf_state and MajorityConfig::raw_slice are under '
+                  'contract since round 13 (each rendered component lists exactly the members of its set; only the std HashSet -> Vec collect is assumed, R9)',
          'decided': ['IncrChangeMap::contains: the LATEST logged change of an id decides (icm_dom); check_invariants returns Ok IFF cfg_checked (the stated '
                      'disjointness / staging / tracking conditions), for every configuration and change log',
                      'Changer::apply is the left fold of the reference step function sp_apply_one over the change list and rejects exactly the results without '
@@ -336,8 +336,8 @@ PROPS = {'C18': {'title': 'Inflights window is a bounded FIFO under resizing',
                      'lemma_c12_{simple,enter_joint,leave_joint}_overlap: a deciding set (strict majority of incoming, and of outgoing when joint) before the '
                      'change shares a voter with any deciding set after it, for the result shapes the three contracts establish',
                      "Raft::apply_conf_change applies exactly the algebra's result to the running node (see C09) and rejected changes leave it untouched"],
-         'undecided': ['that restore never FAILS on the ConfState of a reachable configuration, and Configuration::to_conf_state itself (HashSet -> Vec '
-                       'collect): only the bounded monitor mon_c12 exercises the full round trip through Raft::new',
+         'undecided': ['that restore never FAILS on the ConfState of a reachable configuration (the std HashSet -> Vec '
+                       'collect inside to_conf_state / raw_slice is an R9 assumption): only the bounded monitor mon_c12 exercises the full round trip through Raft::new',
                        'that callers (Raft::apply_conf_change) only pass configurations satisfying cfg_inv (needs the invariant over the whole run)'],
          'assumptions': ['std iterator adapters rfind / extend / drain / symmetric_difference().count() / Union::iter as specified helpers (R9)',
                          'derive(Clone) of tracker::Configuration copies the sets (R9)',
@@ -368,8 +368,8 @@ PROPS = {'C18': {'title': 'Inflights window is a bounded FIFO under resizing',
                      'votes and configuration'],
          'undecided': ['application state equality (outside the library)'],
          'assumptions': ['mode S for raft.rs and raw_node.rs (fatal!/panic!/assert! abort; postconditions hold on normal return)',
-                         'assumed contracts (fingerprint-locked in spec/assumed.lock.json): ProgressTracker::{get_mut, record_vote}, '
-                         'Configuration::to_conf_state, Raft::has_unapplied_conf_changes (K-ext Kani), RaftCore::try_batching (K-ext Kani); ReadOnly is under '
+                         'assumed contracts (fingerprint-locked in spec/assumed.lock.json): ProgressTracker::get_mut, '
+                         'Raft::has_unapplied_conf_changes (K-ext Kani), RaftCore::try_batching (K-ext Kani); ReadOnly is under '
                          'contract over a byte-keyed view of its table: the five std HashMap operations with Vec<u8> / &[u8] keys are specified helpers '
                          '(verif_ri_*)',
                          'specified helpers for std / protobuf calls (R9) and the three cut texts (R10) listed in the evidence file'],
@@ -409,8 +409,8 @@ PROPS = {'C18': {'title': 'Inflights window is a bounded FIFO under resizing',
                      'rejected change leaves the whole Raft untouched; term, vote and role are kept'],
          'undecided': ['identical configurations at equal applied index across nodes (history statement)'],
          'assumptions': ['mode S for raft.rs and raw_node.rs (fatal!/panic!/assert! abort; postconditions hold on normal return)',
-                         'assumed contracts (fingerprint-locked in spec/assumed.lock.json): ProgressTracker::{get_mut, record_vote}, '
-                         'Configuration::to_conf_state, Raft::has_unapplied_conf_changes (K-ext Kani), RaftCore::try_batching (K-ext Kani); ReadOnly is under '
+                         'assumed contracts (fingerprint-locked in spec/assumed.lock.json): ProgressTracker::get_mut, '
+                         'Raft::has_unapplied_conf_changes (K-ext Kani), RaftCore::try_batching (K-ext Kani); ReadOnly is under '
                          'contract over a byte-keyed view of its table: the five std HashMap operations with Vec<u8> / &[u8] keys are specified helpers '
                          '(verif_ri_*)',
                          'specified helpers for std / protobuf calls (R9) and the three cut texts (R10) listed in the evidence file',
@@ -430,8 +430,8 @@ PROPS = {'C18': {'title': 'Inflights window is a bounded FIFO under resizing',
                      'become_leader clear it'],
          'undecided': ['completion in a healthy cluster'],
          'assumptions': ['mode S for raft.rs and raw_node.rs (fatal!/panic!/assert! abort; postconditions hold on normal return)',
-                         'assumed contracts (fingerprint-locked in spec/assumed.lock.json): ProgressTracker::{get_mut, record_vote}, '
-                         'Configuration::to_conf_state, Raft::has_unapplied_conf_changes (K-ext Kani), RaftCore::try_batching (K-ext Kani); ReadOnly is under '
+                         'assumed contracts (fingerprint-locked in spec/assumed.lock.json): ProgressTracker::get_mut, '
+                         'Raft::has_unapplied_conf_changes (K-ext Kani), RaftCore::try_batching (K-ext Kani); ReadOnly is under '
                          'contract over a byte-keyed view of its table: the five std HashMap operations with Vec<u8> / &[u8] keys are specified helpers '
                          '(verif_ri_*)',
                          'specified helpers for std / protobuf calls (R9) and the three cut texts (R10) listed in the evidence file'],
@@ -453,8 +453,8 @@ PROPS = {'C18': {'title': 'Inflights window is a bounded FIFO under resizing',
                      'indexes recorded at request time and forgets them; queue and table stay consistent (every queued context pending, none queued twice)'],
          'undecided': ['linearizability over all schedules'],
          'assumptions': ['mode S for raft.rs and raw_node.rs (fatal!/panic!/assert! abort; postconditions hold on normal return)',
-                         'assumed contracts (fingerprint-locked in spec/assumed.lock.json): ProgressTracker::{get_mut, record_vote}, '
-                         'Configuration::to_conf_state, Raft::has_unapplied_conf_changes (K-ext Kani), RaftCore::try_batching (K-ext Kani); ReadOnly is under '
+                         'assumed contracts (fingerprint-locked in spec/assumed.lock.json): ProgressTracker::get_mut, '
+                         'Raft::has_unapplied_conf_changes (K-ext Kani), RaftCore::try_batching (K-ext Kani); ReadOnly is under '
                          'contract over a byte-keyed view of its table: the five std HashMap operations with Vec<u8> / &[u8] keys are specified helpers '
                          '(verif_ri_*)',
                          'specified helpers for std / protobuf calls (R9) and the three cut texts (R10) listed in the evidence file'],
